@@ -27,7 +27,7 @@ def impl_raw(rule, op, x, y, int_dtype=False):
 KEEP = []     # (real result, canonical value when produced, description, operands + their snapshots)
 
 
-def impl_public(op, dep, x, y, bare=False, int_dtype=False):
+def impl_public(op, dep, x, y, bare=False, int_dtype=False, keep=True):
     import warnings
     try:
         with warnings.catch_warnings():
@@ -39,7 +39,7 @@ def impl_public(op, dep, x, y, bare=False, int_dtype=False):
             else:
                 r = getattr(X, op)(Y, dependency=dep)
         c = pbx.canon_pb(r)
-        if len(KEEP) < 400:
+        if keep and len(KEEP) < 400:
             KEEP.append((r, c, (op, dep), (X, sx), (Y, sy)))
         return c
     except BaseException as e:  # noqa
